@@ -24,7 +24,7 @@ LEVEL_TEXT = ('Exploration: the product tag form x target name x node kind x con
               'multi-constructors, resolvers and YAMLObject classes the way applications do (module-level helpers with and without '
               'Loader=, class methods on the non-safe loaders and on subclasses of the safe ones) and demands that none of it reaches a '
               'safe loader. Hostile targets include iterator objects, computed class attributes, unimported submodules of imported '
-              'packages and unimported parent packages.')
+              'packages and unimported parent packages.' + " Contexts include merged and duplicate entries that are constructed and then overwritten, and the value of (and entries beside) a '=' key.")
 LEVEL_NOTE = ('Held on the documents generated. The monitors see calls made from yaml code objects and audit events; a call made '
               'from inside C code without an audit event would only show through the canaries and sys.modules.')
 TECHNIQUE = 'runtime monitoring: sys.monitoring CALL events + audit hook + state digest + result-type walk over a tag/context product'
